@@ -178,6 +178,10 @@ def main(argv=None):
         return conclude(prop, mod, a.tier, seed, m, errs, time.time() - t0)
     finally:
         shutil.rmtree(scratch, ignore_errors=True)
+        if os.path.exists(scratch):
+            # (a killed worker's child may still have been writing: try once more)
+            time.sleep(1.0)
+            shutil.rmtree(scratch, ignore_errors=True)
 
 
 def conclude(prop, mod, tier, seed, m, errs, wall):
